@@ -25,6 +25,9 @@ type Op struct {
 	CheckExist bool `json:"checkexist,omitempty"`
 	OnlyIfEx   bool `json:"onlyifexists,omitempty"`
 	SleepMs    int  `json:"sleepms,omitempty"`
+	// Retry: a failed lock statement is repeated up to this many times, each time with a fresh for-update
+	// timestamp (what an SQL layer does after a lock conflict), unless the client died
+	Retry int `json:"retry,omitempty"`
 }
 
 // TxnProg is the program of one transaction, run by its own actor goroutine.
@@ -55,6 +58,33 @@ type Knobs struct {
 	ScanBatch       int  `json:"scan_batch,omitempty"`
 	ResolveLite     int  `json:"resolve_lite,omitempty"`
 	LongTTL         bool `json:"long_ttl,omitempty"` // no lock expires during the run (C06)
+	// Delays: failpoint sites of the library that sleep in simulated time when reached ("buggify": a background
+	// goroutine that starts late, a slow step between two requests); see delaySites. The number is the sleep in ms
+	// where the site takes one.
+	Delays map[string]int `json:"delays,omitempty"`
+}
+
+// delaySites: failpoints of the library whose handler sleeps OUTSIDE the failpoint package (a `sleep(n)` term sleeps
+// while holding the failpoint's mutex: a second goroutine reaching the same site then blocks on a mutex, which a
+// synctest bubble cannot wait for). beforeAsyncPessimisticRollback=return("delay"): the asynchronous pessimistic
+// rollback goroutine sleeps 0-2 s (global math/rand, seeded per run) before it sends anything;
+// getTxnStatusDelay=return: the resolver sleeps 100 ms before it asks for a transaction's status;
+// prewriteSecondarySleep=return(n): every secondary prewrite batch sleeps n ms before it is sent.
+var delaySites = []string{"beforeAsyncPessimisticRollback", "getTxnStatusDelay", "prewriteSecondarySleep"}
+
+// genDelays draws the delay sites of a run (most runs have none).
+func genDelays(r *rand.Rand) map[string]int {
+	if r.Intn(3) != 0 {
+		return nil
+	}
+	d := map[string]int{}
+	for i, n := 0, 1+r.Intn(2); i < n; i++ {
+		d[pick(r, delaySites)] = []int{2, 20, 200, 1500}[r.Intn(4)]
+	}
+	if r.Intn(2) == 0 {
+		d["beforeAsyncPessimisticRollback"] = 1
+	}
+	return d
 }
 
 // NetCfg configures the simulated network.
@@ -270,6 +300,11 @@ func genTxn(r *rand.Rand, id int, clients int, o genOpts, keys []string) TxnProg
 				case 1:
 					op.WaitMs = 50 + r.Intn(500)
 				}
+				if len(op.Keys) > 1 && (op.NoWait || op.WaitMs > 0) && r.Intn(3) == 0 {
+					// the statement is retried at once with the same keys (what an SQL layer does after a lock
+					// conflict): the clean-up of a failed first attempt races the second attempt
+					p.Ops = append(p.Ops, op)
+				}
 			} else {
 				op = Op{Kind: "get", Keys: []string{pick(r, keys)}}
 			}
@@ -401,5 +436,6 @@ func genWorkload(cfg simkit.RunConfig, o genOpts) *Scenario {
 	if r.Intn(2) == 0 {
 		sc.Knobs.ScanBatch = 2 + r.Intn(4)
 	}
+	sc.Knobs.Delays = genDelays(r)
 	return sc
 }
